@@ -230,7 +230,31 @@ impl Source for RtSrc {
     }
 }
 
+/// a scripted source that is NOT fused: it may answer `None` and later `Some` again
+#[derive(Clone)]
+struct BurstSrc {
+    items: Vec<Option<Q>>,
+    at: usize,
+}
+impl Source for BurstSrc {
+    type Output = Q;
+    fn source(&mut self) -> Option<Q> {
+        let r = self.items.get(self.at).cloned().unwrap_or(None);
+        self.at += 1;
+        r
+    }
+}
+
 pub fn parse_src(s: &str) -> BoxSrc {
+    if let Some(rest) = s.strip_prefix("burst[") {
+        let inner = &rest[..rest.len() - 1];
+        let items = if inner.is_empty() {
+            vec![]
+        } else {
+            inner.split(',').map(|t| if t == "-" { None } else { Some(Q::from_val(parse_val(t))) }).collect()
+        };
+        return bx(BurstSrc { items, at: 0 });
+    }
     let mut p = P { s: s.as_bytes(), i: 0 };
     let e = p.expr();
     assert!(p.i == s.len(), "harness: trailing characters in source expression");
